@@ -7,6 +7,8 @@ pub const PRELUDE: &str = include_str!("../prelude.js");
 pub mod c01;
 pub mod c02;
 pub mod c03;
+#[cfg(feature = "native")]
+pub mod c05;
 pub mod c07;
 pub mod c08;
 pub mod c09;
@@ -24,6 +26,8 @@ pub fn lookup(id: &str) -> Option<Box<dyn Check>> {
         "C01" => Some(Box::new(c01::C01)),
         "C02" => Some(Box::new(c02::C02)),
         "C03" => Some(Box::new(c03::C03)),
+        #[cfg(feature = "native")]
+        "C05" => Some(Box::new(c05::C05)),
         "C07" => Some(Box::new(c07::C07)),
         "C08" => Some(Box::new(c08::C08)),
         "C09" => Some(Box::new(c09::C09)),
